@@ -127,6 +127,10 @@ PosIndex(S, p, seq, pos) ==
      [] pos.t = "idx"  -> IF pos.v >= 0 /\ pos.v <= Len(seq) THEN pos.v + 1 ELSE 0
      [] pos.t = "node" -> IF pos.v \in SeqSet(seq) THEN IndexOf(seq, pos.v) ELSE 0
 
+(* an int position beyond the end of the child list: the documentation only speaks of "the existing child with
+   this index"; Python's list.insert appends.  The specification admits both outcomes: the operation is carried out
+   as an append, or it is refused (any error class) - but then the tree must be unchanged (C13). *)
+PosOOB(seq, pos) == pos.t = "idx" /\ pos.v > Len(seq)
 Result(ok, errs, why, ret, st) == [ok |-> ok, errs |-> errs, why |-> why, ret |-> ret, st |-> st]
 Refuse(S, errs, why) == Result(FALSE, errs, why, 0, S)
 (* uniform uniqueness rule (C03): a naive result that would hold duplicate siblings is refused *)
@@ -142,7 +146,11 @@ DoAdd(S, p, d, xid, k, pos, why) ==
        at  == PosIndex(S, p, seq, pos)
        x   == IF xid = 0 THEN DefDid(d) ELSE xid
        dup == x \in SeqSet(KidDids(S, p))
-   IN IF at = 0 THEN Refuse(S, AnyErr \cup (IF dup THEN {"UniqueConstraintError"} ELSE {}), why \o ":badpos")
+   IN IF PosOOB(seq, pos) THEN
+           (IF dup THEN Refuse(S, AnyErr \cup {"UniqueConstraintError"}, why \o ":oob_dup")
+            ELSE LET S1 == Alloc(S, p, d, x, EffKind(S, k), EmptyMeta) IN
+                 Result(TRUE, AnyErr, why \o ":oob", S1.n, SetKids(S1, p, Append(seq, S1.n))))
+      ELSE IF at = 0 THEN Refuse(S, AnyErr \cup (IF dup THEN {"UniqueConstraintError"} ELSE {}), why \o ":badpos")
       ELSE IF dup THEN Refuse(S, {"UniqueConstraintError"}, why \o ":dup")
       ELSE LET S1 == Alloc(S, p, d, x, EffKind(S, k), EmptyMeta) IN
            Result(TRUE, NoErr, why, S1.n, SetKids(S1, p, InsAt(seq, at, S1.n)))
@@ -202,7 +210,10 @@ DoMove(S, x, p, pos, why) ==
        seq  == KidsOf(S1, p)
        at   == PosIndex(S1, p, seq, pos)
        dup  == p # q /\ S.did[x] \in SeqSet(KidDids(S, p))
-   IN IF at = 0 \/ (pos.t = "node" /\ pos.v = x)
+   IN IF PosOOB(seq, pos) THEN
+           (IF dup THEN Refuse(S, AnyErr \cup {"UniqueConstraintError"}, why \o ":oob_dup")
+            ELSE Result(TRUE, AnyErr, why \o ":oob", 0, [SetKids(S1, p, Append(seq, x)) EXCEPT !.par[x] = p]))
+      ELSE IF at = 0 \/ (pos.t = "node" /\ pos.v = x)
         THEN Refuse(S, AnyErr \cup (IF dup THEN {"UniqueConstraintError"} ELSE {}), why \o ":badpos")
       ELSE IF dup THEN Refuse(S, {"UniqueConstraintError"}, why \o ":dup")
       ELSE Result(TRUE, NoErr, why, 0, [SetKids(S1, p, InsAt(seq, at, x)) EXCEPT !.par[x] = p])
